@@ -966,6 +966,7 @@ class FunctionBuilder:
         else:
             d_dict.pop(arg_name, None)
             self.defaults = tuple([d_dict[a] for a in args if a in d_dict])
+        self.annotations.pop(arg_name, None)
         return
 
     def _compile(self, src, execdict):
